@@ -206,6 +206,12 @@ def run(chk):
         return True, "", [b.span]
     chk.ob("C19.R3:MacroProps-skip-None", "an optional capture of None contributes no property and does not end enumeration", macro_props_skip_none)
 
+    def macro_props_get():
+        from . import c02
+        b = P.impl_method("emit_core::props::Props", "emit::macro_hooks::__PrivateMacroProps<'a, N>", "get")
+        return c02.macro_get(P, b)
+    chk.ob("C19.R3:MacroProps-get", "lookup in a macro-built collection skips None entries exactly like enumeration (an optional None contributes no property and hides nothing)", macro_props_get)
+
     # ---- R4 forwarding ---------------------------------------------------------------------------------------------------------
     fw = [("sval::value::Value", "stream"), ("serde::ser::Serialize", "serialize"), ("core::fmt::Debug", "fmt"), ("core::fmt::Display", "fmt"),
           ("sval_ref::ValueRef", "stream_ref")]
